@@ -231,6 +231,8 @@ func checkC07(c *Check) {
 			if good {
 				enforced[f.name]["time-by-scheme-copy"] = true
 			}
+			returnedTimeIsHeader(c, pg, ok, "JWS", "SigningTime", []string{"*" + t.PH + ".SigningTime", "*" + t.PH + ".AuthenticSigningTime"}, AnyOf(A("+IsNil("+t.PH+".SigningTime)"), A("+IsNil("+t.PH+".AuthenticSigningTime)")), "the scheme's time header is absent")
+			returnedTimeIsHeader(c, pg, ok, "JWS", "Expiry", []string{"*" + t.PH + ".Expiry"}, A("+IsNil("+t.PH+".Expiry)"), "the expiry header is absent")
 			c.perIteration(pg, rule, "JWS: every chain element parses", "each certificate of the x5c header parses", "recv.base.Header.CertChain", A("+IsNil(crypto/x509.ParseCertificate(re(recv.base.Header.CertChain))#1)"))
 		case "COSE":
 			rule = "O-C07.3"
@@ -256,6 +258,11 @@ func checkC07(c *Check) {
 					good = false
 				}
 			}
+			cborTime := func(x string) []string {
+				return []string{x, "(github.com/fxamacker/cbor/v2.DecMode).Unmarshal(*, " + x + ", &$[time.Time])!2"}
+			}
+			returnedTimeIsHeader(c, pg, ok, "COSE", "SigningTime", cborTime(t.P+"["+t.label+"]"), LP{Desc: "never", F: func(Label) bool { return false }}, "never")
+			returnedTimeIsHeader(c, pg, ok, "COSE", "Expiry", cborTime(t.P+"["+hExpiry+"]"), A("-Has("+t.P+", "+hExpiry+")"), "the expiry header is absent")
 			c.add(rule, "COSE: signing time read under the scheme's label", "the signing time is the protected header entry whose label is scheme->label table[scheme]", good, posOf(pg, ok))
 			if good {
 				enforced[f.name]["time-by-scheme-copy"] = true
@@ -272,6 +279,9 @@ func checkC07(c *Check) {
 			}
 		}
 	}
+	// the header each attribute is taken from is found by its exact name: a member that
+	// differs from a specification name only by case must not stand in for it (O-C02.5)
+	c.floor("header-name rules (shared with C02)", 3, shareRules(c, checkC02, []string{"O-C02.5"}, "O-C07.2", "header names: "))
 	// (4) sibling agreement on the abstract rule set
 	R := []string{"scheme-in-2", "time-by-scheme", "time-by-scheme-copy", "crit-has-scheme", "crit-has-authtime", "crit-has-expiry", "crit-present", "alg-in-table"}
 	if len(fmts) == 2 {
@@ -283,6 +293,43 @@ func checkC07(c *Check) {
 			}
 			c.add("O-C07.4", "both formats enforce "+r, "rule "+r+" of the abstract envelope rule set is enforced by both the JWS and the COSE content path", a && b, "", det...)
 		}
+	}
+}
+
+// returnedTimeIsHeader (O-C07.5): on every successful return of the content path
+// the time attribute field is exactly one of the decoded header values (want;
+// "*" inside a pattern matches one argument), or the zero time - and the zero
+// time only on paths that established the header's absence.
+func returnedTimeIsHeader(c *Check, pg *PG, ok []*PState, format, field string, want []string, absent LP, absentDesc string) {
+	var zero []*PState
+	var det []string
+	for _, s := range ok {
+		t := fieldPath(s.Ret[0].T, "SignerInfo", "SignedAttributes", field)
+		if t == nil || t == tZero {
+			zero = append(zero, s)
+			continue
+		}
+		k := t.Key()
+		match := false
+		for _, w := range want {
+			if k == w {
+				match = true
+			} else if i := strings.Index(w, "(*, "); i >= 0 {
+				pre, post := w[:i+1], w[i+2:]
+				if strings.HasPrefix(k, pre) && strings.HasSuffix(k, post) && !strings.Contains(k[len(pre):len(k)-len(post)], ",") {
+					match = true
+				}
+			}
+		}
+		if !match {
+			det = append(det, c.P.pos(s.Node.Pos)+": "+field+" is "+k)
+		}
+	}
+	c.add("O-C07.5", format+": returned "+field+" is the decoded header value", "the "+field+" of the returned signed attributes is the value decoded from the header, unchanged (or the zero time)", len(det) == 0 && len(ok) > 0, posOf(pg, ok), dedupe(det)...)
+	if absentDesc != "never" {
+		c.mustPass(pg, "O-C07.5", format+": "+field+" left zero only when "+absentDesc, "returning content with a zero "+field, zero, absent)
+	} else {
+		c.add("O-C07.5", format+": "+field+" never left zero", "no successful return leaves "+field+" unset", len(zero) == 0, posOf(pg, zero))
 	}
 }
 
